@@ -55,6 +55,12 @@ EXTRA = [
     'set -- p q; for x; do echo "arg $x"; done; for y in; do echo never; done; echo end',
     'if cat <<EOF; then echo yes; fi\ncond body\nEOF',
     'if true & then echo z; fi; wait',
+    'while false & true; do echo x; break; done; wait',
+    'if true; false & then echo a; else echo b; fi; wait',
+    'until true & false & true; do echo u; break; done; wait',
+    'if false & true; then echo yes; fi; wait',
+    'while true; false & do echo once; break; done; wait',
+    'if false; then :; elif true & false; then echo e1; elif false; true & then echo e2; fi; wait',
     'cat <<EOF &\nbg body\nEOF\nwait; echo waited',
     'cat <<EOF | tr a-z A-Z; echo next\npiped body\nEOF',
     '{ cat; echo in-group; } <<EOF\ngroup body\nEOF',
